@@ -53,6 +53,8 @@ var operands = []string{
 	"/a", "true", "mark", "currentfile", "SD", "systemdict",
 	// names of existing resource categories / instances, system objects, an error handler object
 	"/Font", "/ProcSet", "/CIDInit", "errordict", "errordict /typecheck get", "StandardEncoding",
+	// the dictionaries an interpreter is born with, other than systemdict
+	"1183615869 internaldict", "userdict", "FontDirectory", "/CIDInit /ProcSet findresource",
 	// the deep shared graphs
 	"/DG load", "DA", "DD",
 }
@@ -104,7 +106,7 @@ func pow(b, e int) int {
 }
 
 // operandsSmall is the pool used one arity above the full enumeration.
-var operandsSmall = []string{"0", "1", "-1", "9223372036854775807", "-9223372036854775808", "65537", "(abc)", "BS", "[1 2]", "SA", "{}", "/MA load", "/a", "SD", "mark", "/Font", "errordict /typecheck get", "/DG load"}
+var operandsSmall = []string{"0", "1", "-1", "9223372036854775807", "-9223372036854775808", "65537", "(abc)", "BS", "[1 2]", "SA", "{}", "/MA load", "/a", "SD", "mark", "/Font", "errordict /typecheck get", "/DG load", "1183615869 internaldict"}
 
 func tuplesFamily(name string, operands []string, minArity, maxArity int, budget time.Duration) mc.Family {
 	type block struct{ arity, op, variant int }
@@ -791,13 +793,16 @@ var afmLines = []string{
 	"C 65 ; N A ; B 1 2 3 ;", "C 65 ; N F ; B a b c d ;", "C 65 ; N G ; L A ;", "C 65 ; N H ; L A B ; L A C ; L ;", "N ;", ";;;;", "C 9223372036854775808 ; N I ;",
 	"StartKernPairs 1", "EndKernPairs", "KPX A B -10", "KPX A B", "KPX A B x", "KPX A B 99999999999", "",
 	strings.Repeat("x", 70000),
+	// announced counts: nothing may be allocated on the say-so of a header line
+	"StartKernPairs 9223372036854775807", "StartKernPairs 20000000000", "StartKernPairs -9223372036854775808", "StartCharMetrics 9223372036854775807", "StartCharMetrics 30000000000",
+	"StartComposites 9223372036854775807", "StartTrackKern 1152921504606846976", "StartKernPairs0 1152921504606846976",
 }
 
 func afmFamily(length int, budget time.Duration) mc.Family {
 	n := len(afmLines)
 	return mc.Family{
 		Name: "afm-line-sequences", Items: n * n, Budget: budget,
-		Rule: fmt.Sprintf("every sequence of 2..%d lines from %d line templates (section switches, fields with missing/huge/non-numeric values, malformed C lines, a 70,000-byte line) x line ends {LF, CRLF}; item = first two lines; non-trivial = every case", length, n),
+		Rule: fmt.Sprintf("every sequence of 2..%d lines from %d line templates (section switches, fields with missing/huge/non-numeric values, malformed C lines, a 70,000-byte line, section headers announcing up to 2^63-1 entries) x line ends {LF, CRLF}; item = first two lines; non-trivial = every case", length, n),
 		Body: func(c *mc.Ctx, item int) mc.Verdict {
 			lines := []string{afmLines[item%n], afmLines[item/n]}
 			l := c.Choose(length - 1)
